@@ -122,11 +122,13 @@ m = {
  },
  "engines": [
    {"name": "tlc", "path": "/opt/veriftools/tla/tla2tools.jar", "serves_properties": sorted(CHECKS), "kind_free_text": "TLC 1.8 model checker: exhaustive checking of the design modules and validation of recorded traces (Trace_*.tla)"},
+   {"name": "apalache", "path": "/opt/veriftools/apalache", "serves_properties": ["C04", "C09", "C14"], "kind_free_text": "Apalache 0.58 symbolic model checker: inductive invariants of Ind_BufReader (all sizes), Ind_BufPool and Ind_Concurrency (any run length), each with a negative control and non-vacuity probes"},
+   {"name": "tlapm", "path": "/opt/veriftools/tlapm", "serves_properties": ["C09", "C14"], "kind_free_text": "TLAPS proofs Proof_BufPool / Proof_Concurrency (arbitrary sets of buffers / goroutines / objects), each with a control module that must leave an obligation unproved"},
    {"name": "vcheck", "path": "/verif/harness", "serves_properties": sorted(CHECKS), "kind_free_text": "Go harness: drives the real code, records ndjson traces, runs TLC, confirms and reports"},
  ],
  "checks": [],
  "not_applicable": [],
- "notes": "All verdicts come from TLA+ specifications in /verif/spec evaluated by TLC against behaviour recorded from the real code (see DESIGN.md). exit 2 = infrastructure error (no verdict).",
+ "notes": "Verdicts come from TLA+ specifications in /verif/spec evaluated by TLC against behaviour recorded from the real code (see DESIGN.md). Where an input is beyond what TLC can consume or express, a Go-side monitor stands in and says so in the evidence file's rule text: the 2^32 i32 sweep and the raw byte sweeps (C01, C03), 4 GiB values and giant keys (C02, C07), collections of thousands of entries (C06, C07, C10, C11, C13), nesting millions of levels deep in child processes (C03), the race detector (C14). exit 2 = infrastructure error (no verdict).",
 }
 for p in props:
     if p in CHECKS:
